@@ -118,6 +118,22 @@ func c02Gen(g *core.Gen) {
 			}
 		})
 	}
+	// look-alike files: equal length, identical first 16 KiB (hence equal 16k hash), different tails - rewritten by the
+	// same Repair in every combination of {deleted, damaged in the tail, damaged in the common part}
+	lookCfg := scen.P2Config{Sizes: []int{17000, 17000, 17000}, Slice: 1000, Blocks: 40, Class: "lookalike", G: 2}
+	lookMenu := []scen.Dmg{}
+	for f := 0; f < 3; f++ {
+		lookMenu = append(lookMenu, scen.Dmg{Op: "del", F: f}, scen.Dmg{Op: "ovw", F: f, At: 16}, scen.Dmg{Op: "ovw", F: f, At: 2})
+	}
+	for k := 1; k <= 2; k++ {
+		forCombos(len(lookMenu), k, func(ix []int) {
+			var ds []scen.Dmg
+			for _, i := range ix {
+				ds = append(ds, lookMenu[i])
+			}
+			g.Emit(&c02Case{Kind: "p2", P2: &p2Case{Cfg: lookCfg, Dmg: ds, G: 2, DoubleCheck: k == 2, Extra: c02Extras}})
+		})
+	}
 	// a file above the 16 KiB hash boundary: damage beyond the first 16 KiB combined with bad recovery data
 	bigCfg := scen.P2Config{Sizes: []int{19000, 5000}, Slice: 1000, Blocks: 3, Class: "uniq", G: 2}
 	bigMenu := []scen.Dmg{{Op: "ovw", F: 0, At: 18}, {Op: "ovw", F: 0, At: 0}, {Op: "ovw", F: 1, At: 4}, {Op: "del", F: 0}, {Op: "del", F: 1}, {Op: "ins", F: 0, At: 17500, N: 1},
